@@ -219,6 +219,19 @@ func (x *Exec) contractCall(i *ssa.Call, callee *ssa.Function, cc *Contract, val
 	ord := x.callOrdinal(i, key)
 	pos := i.Pos()
 	callerEnv := x.envAt(pos)
+	if x.contract != nil {
+		for n, ca := range x.contract.CallArgs {
+			if ca.Callee != key || ca.Ordinal != ord {
+				continue
+			}
+			ae := callerEnv
+			for k, p := range callee.Params {
+				ae = ae.bind("arg_"+p.Name(), vals[k])
+			}
+			x.callArgsDone[ca] = true
+			x.oblige(fmt.Sprintf("callarg/%s#%d/%d", key, ord, n+1), "callarg", x.curPC, x.evalBool(ca.Clause, ae), ca.Clause.Text, pos)
+		}
+	}
 	env := &Env{vars: map[string]Val{}}
 	for k, p := range callee.Params {
 		env.vars[p.Name()] = vals[k]
